@@ -28,7 +28,8 @@ REGISTRATION = {
             "processBatch / the admission block / runEvents keep SInv = Coherent + exclusive ownership of slots by live "
             "sequences + records <= numCtx, so every state reachable from a new runner by any event list is coherent and "
             "no two live sequences share a slot (reachable_coherent_owned, Tie.C07.tree_reachable_coherent_owned; plain "
-            "causal cache, defrag layouts assumed to be relocations); NewSequence truncation (newSequence_spec), "
+            "causal cache; a layout observed after a defrag is adopted only if the model's own check relocOK accepts it, "
+            "so there is no assumption about the hints); NewSequence truncation (newSequence_spec), "
             "shift-frees-room (shift_ok_shape) and the record cut next to TruncateStop (stop_cut_record; L2 stop-cut) are "
             "theorems. Records of different slots never share "
             "storage (load/forward/shift leave every other slot unchanged: theorems; record-aliasing monitors on "
@@ -93,7 +94,7 @@ THEOREMS = [
     "OllamaVerif.C07.runEvents_SInv",
     "OllamaVerif.C07.SInv_init",
     "OllamaVerif.C07.reachable_coherent_owned",
-    "OllamaVerif.C07.hintsOK_of_no_defrag",
+    "OllamaVerif.C07.relocOK_spec",
     "OllamaVerif.C07.demo_runs",
     "OllamaVerif.C07.demo_mid",
     "OllamaVerif.Tie.C07.tree_reachable_coherent_owned",
@@ -297,9 +298,10 @@ def run(ctx):
         "Coherent invariant theorems are for plain causal caches (any CanResume answer); for SWA the proved part is "
         "canResume_sound + load_window_present (leave-one/CanResume ordering)",
         "text inputs only (SameBatch = 0, no multimodal hashes); greedy sampling",
-        "SInv / reachable_coherent_owned: plain causal cache (window = none), numCtx < 2^31, and every layout adopted after "
-        "a defrag is a relocation of the cells (HintsOK; C06 proves that about defrag); the theorems say nothing when "
-        "processBatch returns an error (ErrKvCacheFull: run() panics)",
+        "SInv / reachable_coherent_owned: plain causal cache (window = none), numCtx < 2^31; a layout handed over after a "
+        "defrag is adopted by the model only when it is a relocation of the model's own cells (relocOK, checked on every "
+        "adopted layout of every L1 line; otherwise `step:bad-hint` = L1 disagreement), so the theorems carry no hypothesis "
+        "about hints; they say nothing when processBatch returns an error (ErrKvCacheFull: run() panics)",
         "load_window_present / canResume_sound assume PosUnique (a sequence holds each position at most once) for SWA "
         "caches: not proved as an invariant there",
         "stop_cut_record assumes the record ends with the tokens of the held-back pieces (true unless a context shift "
